@@ -110,7 +110,7 @@ def history(rng, maxpages, length):
         elif r < 0.80:
             d = rng.choice([0, 1, 1, 2, mx - pages, mx - pages + 1, 65535, 65536, (1 << 32) - pages, (1 << 32) - 1,
                             (1 << 32) - pages + 1, 0x80000000, 65536 - pages, 65537 - pages])
-            if maxpages is None and pages + d <= 65536 and d > 3:
+            if maxpages in (None, 65536) and pages + d <= 65536 and d > 3:
                 d = 65537 - pages       # do not really allocate gigabytes
             d &= 0xFFFFFFFF
             ops.append({"op": "call", "inst": 1, "export": "grow", "args": [arg("i32", d)]})
@@ -203,11 +203,12 @@ def main():
     tlc_ok(mc, "MemCheck")
     nhist, length = (160, 14) if tier == "quick" else (3000, 24)
     items = []
-    mods = {3: build_module(3), None: build_module(None), 1: build_module(1)}
+    # (65536: the largest maximum that can be declared, written out)
+    mods = {3: build_module(3), None: build_module(None), 1: build_module(1), 65536: build_module(65536)}
     # a shared memory (allocated at its maximum up front) has the same single-threaded meaning
     shared3 = build_module(3, shared=True)
     for h in range(nhist):
-        mp = rng.choice([3, 3, 3, None, 1])
+        mp = rng.choice([3, 3, 3, None, 1, 65536])
         items.append({"id": "h%d" % h, "module": shared3 if mp == 3 and h % 3 == 0 else mods[mp],
                       "script": [{"op": "instantiate", "binds": {"mem": 0, "table": 0, "globals": []}}] + history(rng, mp, length)})
     # a declared maximum of zero pages is a maximum
